@@ -16,7 +16,7 @@ import subprocess
 import sys
 import time
 
-SV = "/tmp/sv"
+SV = os.environ.get("SEED_SV", "/tmp/sv")
 VERIF = "/verif"
 
 
@@ -38,6 +38,7 @@ def main():
         sh(f"git -C /repo worktree remove --force {SV}")
         return
     pid, var = sys.argv[1], sys.argv[2]
+    prop_override = sys.argv[sys.argv.index("--property") + 1] if "--property" in sys.argv else None
     checks = []
     if "--checks" in sys.argv:
         checks = sys.argv[sys.argv.index("--checks") + 1].split(",")
@@ -47,7 +48,7 @@ def main():
     assert demos, "no demo file"
     demo = demos[0]
     head = ensure_sv()
-    meta = {"property": pid, "variant": var, "repo_head": head, "ran": []}
+    meta = {"property": prop_override or pid, "variant": var, "repo_head": head, "ran": []}
 
     def demo_run(label):
         if demo.endswith(".rs"):
@@ -103,7 +104,7 @@ def main():
         if extra.startswith(f"{var}.") and extra not in (demo, f"{var}.patch.diff"):
             shutil.copy(f"{out}/{extra}", f"{d}/{extra.replace(var + '.', '', 1)}")
     notes = open(f"{out}/notes.md").read() if os.path.exists(f"{out}/notes.md") else ""
-    meta["breaks"] = pid
+    meta["breaks"] = prop_override or pid
     meta["needs_to_manifest"] = "see notes.md (section for variant %s)" % var
     with open(f"{d}/notes.md", "w") as f:
         f.write(notes)
@@ -111,8 +112,8 @@ def main():
     # depends on that worktree), so that /repo itself is never touched and background runs are not disturbed
     results = {}
     if checks:
-        MV = "/tmp/mut/verif"
-        os.makedirs("/tmp/mut", exist_ok=True)
+        MV = os.environ.get("SEED_MV", "/tmp/mut/verif")
+        os.makedirs(os.path.dirname(MV), exist_ok=True)
         sh(f"rsync -a --delete --exclude work --exclude harness/target --exclude replays --exclude .git {VERIF}/ {MV}/")
         sh(f"sed -i 's#path = \"/repo\"#path = \"{SV}\"#' {MV}/harness/Cargo.toml")
         code, o = sh(f"git apply {patch}", cwd=SV)
